@@ -1524,12 +1524,12 @@ class Interp:
             if isinstance(i, slice):
                 lo, hi = self._clamp(i.start, i.stop, nr)
                 valf = self._valf(val, lo)
-                h.write_a2_where(v.field, v.owner.ref, lambda r, c: z3.And(c == j, r >= lo, r < hi), lambda r, c: valf(r))
+                h.write_a2_where(v.field, v.owner.ref, lambda r, c: z3.And(c == j, r >= lo, r < hi), lambda r, c: valf(r), col=j)
                 return
             if is_arr(i) and self.arr_dtype(i) == "bool":
                 m = self.arr_reader(i)
                 valf = self._valf(val, 0, masked=True)
-                h.write_a2_where(v.field, v.owner.ref, lambda r, c: z3.And(c == j, r >= 0, r < nr, core.to_bool(m(r))), lambda r, c: valf(r))
+                h.write_a2_where(v.field, v.owner.ref, lambda r, c: z3.And(c == j, r >= 0, r < nr, core.to_bool(m(r))), lambda r, c: valf(r), col=j)
                 return
             ci = concrete_int(i)
             if ci is not None and ci < 0:
@@ -1538,7 +1538,7 @@ class Interp:
             if self.definedness:
                 self.oblige("defined", "row-in-range@L%s" % getattr(node, "lineno", "?"), z3.And(i >= 0, i < nr), getattr(node, "lineno", None))
             sv = to_real(self._scalar(val))
-            h.write_a2_where(v.field, v.owner.ref, lambda r, c: z3.And(c == j, r == i), lambda r, c: sv)
+            h.write_a2_where(v.field, v.owner.ref, lambda r, c: z3.And(c == j, r == i), lambda r, c: sv, col=j, row=i)
             return
         if isinstance(v, LArr):
             if v.readonly:
